@@ -79,6 +79,12 @@ Theorem C17_n_modes_non_numeric : forall v,
 Proof. exact n_modes_non_numeric. Qed.
 Print Assumptions C17_n_modes_non_numeric.
 
+(* the acceptance set is exact: an int >= 1, a binary64 in (0, 1], the string "all" (and True, an int in Python);
+   everything else is refused, and nothing in the set is *)
+Theorem C17_n_modes_accepted_iff : forall v, sanity_check_n_modes v = Ok tt <-> valid_n_modes v.
+Proof. exact n_modes_accepted_iff. Qed.
+Print Assumptions C17_n_modes_accepted_iff.
+
 Theorem C17_bad_n_modes_refused_at_fit : forall cfg x dim k,
   sanity_check_n_modes (c_n_modes cfg) = Err k -> refused (fit_outcome cfg x dim).
 Proof. exact bad_n_modes_refused. Qed.
